@@ -7,9 +7,9 @@
 (* TraceLaws.tla judges the same events independently.                     *)
 (***************************************************************************)
 EXTENDS Laws, Json
-CONSTANTS Family,      \* which family to enumerate
-          N            \* its size parameter
-VARIABLE c
+CONSTANTS Families,    \* the families to enumerate in this run (a set of names)
+          NBits, NHexTxt, NB64Txt, NRadix, NCp, NDec, NUrlTxt, NVal     \* their size parameters
+VARIABLE c             \* <<family, case>>
 
 T == FqRadixTable
 Seqs(S, lo, hi) == UNION {[1 .. k -> S] : k \in lo .. hi}
@@ -91,12 +91,12 @@ Small0 == {VNull, VSmall(1), VSmall(-1), S(<<>>), S(<<97>>), VInt(FALSE, Min63)}
 Small1(u) == Small0 \cup {VArr(<<>>), VObj(<<>>, <<>>)} \cup {VArr(<<a>>) : a \in Small0} \cup {VObj(<<K3>>, <<a>>) : a \in Small0}
                  \cup {VObj(<<K1>>, <<VSmall(1)>>)}
 Level2(u) == ArrsOver(Small1(u), 2) \cup ObjsOver(Small1(u))
-JsonVals(u) == IF N >= 2 THEN Level1(u) \cup Level2(u) ELSE Level1(u)
+JsonVals(u) == IF NVal >= 2 THEN Level1(u) \cup Level2(u) ELSE Level1(u)
 \* CSV: rectangular rows over CSV-hostile cells
 CsvCells == {<<>>, <<97>>, <<35, 99>>, <<32, 120>>, <<120, 44, 121>>, <<113, 34>>, <<97, 13, 10, 98>>, <<108, 10, 109>>}
 CsvCells2 == {<<>>, <<97>>, <<35, 99>>, <<120, 44, 121>>, <<97, 13, 10, 98>>}
 RowsOver(cells, w, n) == UNION {{VArr(rows) : rows \in [1 .. k -> {VArr(r) : r \in [1 .. w -> {S(x) : x \in cells}]}]} : k \in 0 .. n}
-CsvVals(u) == RowsOver(CsvCells, 1, N + 1) \cup RowsOver(CsvCells2, 2, 2)
+CsvVals(u) == RowsOver(CsvCells, 1, NVal + 1) \cup RowsOver(CsvCells2, 2, 2)
 \* XML element trees, object variant
 XText == {S(<<>>), S(<<116>>), S(<<97, 60, 38, 62, 34, 39, 98>>), S(<<233, 13, 10, 32, 120>>)}
 XA == <<64, 107>>               \* "@k"
@@ -128,32 +128,33 @@ BadJob(p) == [k |-> "bad", f |-> p[1], doc |-> p[2]]
 
 \* Enumeration by length through the initial-state predicate (a UNION of function sets is built eagerly by TLC
 \* with a quadratic membership test; \E over the length is linear).
-InCases(x) ==
-    CASE Family = "bits"    -> \E k \in 0 .. N : x \in [1 .. k -> {0, 1}]
-      [] Family = "hextxt"  -> \E k \in 0 .. N : x \in [1 .. k -> HexTxtAlpha]
-      [] Family = "b64txt"  -> \E v \in B64Variants, k \in 0 .. N : \E t \in [1 .. k -> B64TxtAlpha] : x = <<v, t>>
-      [] Family = "radix"   -> \E b \in RadixBases, k \in 0 .. N : \E n \in [1 .. k -> RadixSyms(b)] : x = <<b, n>>
-      [] Family = "toradix" -> \E b \in RadixBases, k \in 1 .. N : \E n \in [1 .. k -> RadixSyms(b)] : x = <<b, n>> /\ IsCanonicalNumeral(<<b, n>>)
-      [] Family = "cp"      -> \E k \in 0 .. N : x \in [1 .. k -> CpReps]
-      [] Family = "dec"     -> \E en \in DecEncs, k \in 0 .. N : \E b \in [1 .. k -> DecBytes] : x = <<en, b>>
-      [] Family = "url"     -> x \in UrlStrs(0)
-      [] Family = "urltxt"  -> \E k \in 0 .. N : x \in [1 .. k -> UrlTxtAlpha]
-      [] Family = "val"     -> x \in ValCases(0)
-      [] Family = "bad"     -> x \in MalformedDocs
-Job(x) == CASE Family = "bits"    -> BitsJob(x)
-            [] Family = "hextxt"  -> HexTxtJob(x)
-            [] Family = "b64txt"  -> B64TxtJob(x)
-            [] Family = "radix"   -> RadixJob(x)
-            [] Family = "toradix" -> ToRadixJob(x)
-            [] Family = "cp"      -> CpJob(x)
-            [] Family = "dec"     -> DecJob(x)
-            [] Family = "url"     -> UrlJob(x)
-            [] Family = "urltxt"  -> UrlTxtJob(x)
-            [] Family = "val"     -> ValJob(x)
-            [] Family = "bad"     -> BadJob(x)
+InitFam(fam) ==
+    CASE fam = "bits"    -> \E k \in 0 .. NBits : \E x \in [1 .. k -> {0, 1}] : c = <<fam, x>>
+      [] fam = "hextxt"  -> \E k \in 0 .. NHexTxt : \E x \in [1 .. k -> HexTxtAlpha] : c = <<fam, x>>
+      [] fam = "b64txt"  -> \E v \in B64Variants, k \in 0 .. NB64Txt : \E t \in [1 .. k -> B64TxtAlpha] : c = <<fam, <<v, t>>>>
+      [] fam = "radix"   -> \E b \in RadixBases, k \in 0 .. NRadix : \E n \in [1 .. k -> RadixSyms(b)] : c = <<fam, <<b, n>>>>
+      [] fam = "toradix" -> \E b \in RadixBases, k \in 1 .. NRadix : \E n \in [1 .. k -> RadixSyms(b)] :
+                               c = <<fam, <<b, n>>>> /\ IsCanonicalNumeral(<<b, n>>)
+      [] fam = "cp"      -> \E k \in 0 .. NCp : \E x \in [1 .. k -> CpReps] : c = <<fam, x>>
+      [] fam = "dec"     -> \E en \in DecEncs, k \in 0 .. NDec : \E b \in [1 .. k -> DecBytes] : c = <<fam, <<en, b>>>>
+      [] fam = "url"     -> \E x \in UrlStrs(0) : c = <<fam, x>>
+      [] fam = "urltxt"  -> \E k \in 0 .. NUrlTxt : \E x \in [1 .. k -> UrlTxtAlpha] : c = <<fam, x>>
+      [] fam = "val"     -> \E x \in ValCases(0) : c = <<fam, x>>
+      [] fam = "bad"     -> \E x \in MalformedDocs : c = <<fam, x>>
+Job(fam, x) == CASE fam = "bits"    -> BitsJob(x)
+                 [] fam = "hextxt"  -> HexTxtJob(x)
+                 [] fam = "b64txt"  -> B64TxtJob(x)
+                 [] fam = "radix"   -> RadixJob(x)
+                 [] fam = "toradix" -> ToRadixJob(x)
+                 [] fam = "cp"      -> CpJob(x)
+                 [] fam = "dec"     -> DecJob(x)
+                 [] fam = "url"     -> UrlJob(x)
+                 [] fam = "urltxt"  -> UrlTxtJob(x)
+                 [] fam = "val"     -> ValJob(x)
+                 [] fam = "bad"     -> BadJob(x)
 
-GInit == InCases(c)
+GInit == \E fam \in Families : InitFam(fam)
 GNext == FALSE /\ c' = c
-Emit == PrintT(ToJson(Job(c)))
+Emit == PrintT(ToJson(Job(c[1], c[2])))
 GSpec == GInit /\ [][GNext]_c
 =============================================================================
